@@ -388,9 +388,22 @@ func (r *c07Run) run() {
 				if len(keep) == 0 {
 					keep = []*fix.Oracle{fix.NewOracle(c, spec.Chain, 90)}
 				}
+				leave := rng.IntN(3) != 0
+				if leave && len(keep) > 1 {
+					// first a fresh oracle set that still lists everybody: one of the oracles that stay adds a third
+					// to its stake (a power change above the threshold), one block passes
+					if rec0, ok := b.K.GetOracle(c.Ctx, keep[0].Oracle.Acc()); ok && rec0.Online {
+						add := sdk.NewCoin(fxtypes.DefaultDenom, rec0.DelegateAmount.QuoRaw(3))
+						fix.Fund(c, keep[0].Oracle.Acc(), add)
+						c.Msg(&crosschaintypes.MsgAddDelegate{ChainName: spec.Chain, OracleAddress: keep[0].Oracle.Bech32(), Amount: add})
+						if !r.block(0) {
+							return
+						}
+					}
+				}
 				res := b.SetOracleList(keep)
 				r.logf("gov oracle list (%d) -> %s", len(keep), res.ErrString())
-				if res.OK() && rng.IntN(3) != 0 {
+				if res.OK() && leave {
 					// one long block later the removed oracles' stake has matured and they leave for good, while
 					// oracle sets that still list them as members wait to be checked for confirmations
 					if !r.block(22 * 24 * time.Hour) {
